@@ -417,7 +417,7 @@ pub fn run_root<R: 'static>(mk: impl FnOnce() -> Pin<Box<dyn Future<Output = R> 
             for (gi, gt) in e.gates.iter().enumerate() {
                 if gt.state == GateState::Pending {
                     pending += 1;
-                    if draining || g.dep_ok(gt.ev, gt.occ) {
+                    if draining || (g.dep_ok(gt.ev, gt.occ) && !g.plan.stuck.contains(&(gt.ev, gt.occ))) {
                         opts.push(Opt { ent: gt.task, class: 1, key: ((gt.ev as u64) << 32) | gt.occ as u64 });
                         acts.push(Act::Release(gi as u32));
                     }
